@@ -582,6 +582,37 @@ func c13R5(c *Ctx) {
 		if nHS == 0 {
 			c.bad(ps.fn+"/handshaking=>park-first", c.pos(f.Pos()), "the pump no longer tests the status for handshaking")
 		}
+		// and every forward is behind such a test made after the read: from the read no forward of the chunk is reachable
+		// without passing a branch on "status == handshaking" whose status was loaded after that read
+		{
+			statusIf := func(in ssa.Instruction) bool {
+				i, isIf := in.(*ssa.If)
+				if !isIf {
+					return false
+				}
+				op, x, y, ok := cmpFact(normFact(fact{V: i.Cond, Pol: true}))
+				if !ok || (op != token.EQL && op != token.NEQ) || !isConstIntV(hs)(y) {
+					return false
+				}
+				call, _ := callOf(x)
+				return call != nil && isStatusCall(call, "Load") && domI(read, call)
+			}
+			// (a tunnel pump whose relay pointer reads nil has been detached by resetToStandby: it belongs to no handshake and forwards as is)
+			detached := func(from, to *ssa.BasicBlock) bool {
+				for _, fc := range edgeFactsTo(from, to) {
+					op, x, y, ok := cmpFact(fc)
+					if !ok || op != token.EQL || !isNilConst(y) {
+						continue
+					}
+					if call, _ := callOf(x); call != nil && isAtomicOnField(call, "relay", "Load") {
+						return true
+					}
+				}
+				return false
+			}
+			hitU, pathU := reachFromE(read.Block(), instrIndex(read)+1, isSendChunk, func(x ssa.Instruction) bool { return statusIf(x) || x == ssa.Instruction(read) }, detached)
+			c.check(hitU == nil, ps.fn+"/forward-only-after-status-test", c.ipos(read), "a chunk is forwarded only after the status, read after the chunk, was tested for handshaking", "a chunk can be forwarded without a fresh test of the relay status: during a handshake it overtakes the parked bytes", c.pathStr(pathU)...)
+		}
 	}
 	// consumers: which writer each channel drains into
 	wantSink := map[string]string{"osStdinChan": "serverIn", "osStdoutChan": "clientOut", "bypassTmuxChan": "bypassTmuxOut", "clientBufChan": "serverConn", "serverBufChan": "clientConn"}
